@@ -4,7 +4,8 @@
 (* constructor said (accepted), parameters -> KeyTemplate -> parameters; and a "keys"      *)
 (* event for every accepted record: for every                                             *)
 (* key kind (symmetric | private, public) and material class (random, zero, leadzero,     *)
-(* maxid, id0) key -> KeySerialization -> key, as recorded from                           *)
+(* maxid, id0; RSA: unbalanced primes, CRT values / d with leading zero bytes)             *)
+(* key -> KeySerialization -> key, as recorded from                           *)
 (* internal/protoserialization and from the public keyset route (Manager.AddKey +         *)
 (* insecurecleartextkeyset Write/Read, binary and JSON).                                  *)
 (*                                                                                        *)
@@ -53,7 +54,9 @@ IdReq(T, p, k) == IF HasIdRequirement(VariantOf(T, p)) THEN k.id ELSE "none"
 JudgeKey(T, p, k) ==
   IF k.panic THEN <<"panic while building / serializing / parsing a key", "no panic">>
   ELSE IF ~k.built THEN (IF k.mc = "random" /\ KeyConstructible(T, k.kind, p) THEN <<"COVERAGE: key constructor refuses random material for accepted parameters", T>> ELSE <<>>)
-  ELSE IF ~k.ser THEN (IF Representable(T, p) THEN <<"COVERAGE: SerializeKey refuses a key the proto format can carry", T>> ELSE <<>>)
+  ELSE IF k.ksinfo \in {"panic", "panic before KeysetInfo"}
+         THEN <<"a handle holding the key panics in KeysetInfo() / String()", "no panic">>
+  ELSE IF ~k.ser THEN (IF Representable(T, p) THEN <<"SerializeKey refuses a key the constructor accepted and the proto format can carry", "ok">> ELSE <<>>)
   ELSE IF ~k.parse THEN <<"serialized key does not parse", "parse ok">>
   ELSE IF ~k.equal \/ ~k.equalRev THEN <<"key -> KeySerialization -> key is not Equal", "Equal">>
   ELSE IF ~k.ser2 THEN <<"parsed key does not serialize again", "ok">>
